@@ -760,7 +760,9 @@ class BaseBackend(CodeGen):
                 state_rec[idx, :] = y
                 idx += 1
             step = i + t0
-            rhs = func(step, y, *args)
+            # func writes into and returns one shared buffer: keep a copy of the first stage, otherwise the
+            # second call overwrites it and the corrector averages the second stage with itself
+            rhs = np.array(func(step, y, *args), copy=True)
             y_0 = y + dt * rhs
             y += dt/2 * (rhs + func(step, y_0, *args))
             if has_dde:
